@@ -116,7 +116,7 @@ Qed.
 Definition all_params (f : params -> bool) : bool :=
   forallb (fun fx => forallb (fun o => forallb (fun ft => forallb (fun pr =>
      f {| p_fixed := fx; p_out := o; p_fault := ft; p_prog := pr |})
-     [PDrop; PAwait; PStop]) [false; true]) [OVal; OErr; ODone]) [false; true].
+     [PDrop; PAwait; PStop; PConnDrop]) [false; true]) [OVal; OErr; ODone]) [false; true].
 
 Lemma all_params_sound f : all_params f = true -> forall p, f p = true.
 Proof.
@@ -206,10 +206,12 @@ Qed.
 Definition is_fixed (p : params) : bool := p_fixed p.
 (* the code as written, away from finding 7: not (value, the copy throws, future dropped) *)
 Definition away7 (p : params) : bool :=
-  negb (match p_out p, p_prog p with OVal, PDrop => p_fault p | _, _ => false end).
-(* away from finding 13: no stop request on the awaiting receiver *)
+  negb (match p_out p, p_prog p with OVal, (PDrop | PConnDrop) => p_fault p | _, _ => false end).
+(* away from finding 13: no stop request while the future is awaited *)
 Definition away13 (p : params) : bool := match p_prog p with PStop => false | _ => true end.
-Definition safe_params (p : params) : bool := p_fixed p || (away7 p && away13 p).
+(* away from finding 14: the future is not destroyed between connect and start *)
+Definition away14 (p : params) : bool := match p_prog p with PConnDrop => false | _ => true end.
+Definition awaited (p : params) : bool := match p_prog p with PAwait | PStop => true | _ => false end.
 
 Definition members_eqb (a b : list member) : bool := if list_eq_dec member_eq_dec a b then true else false.
 Definition results_eqb (a b : list result) : bool := if list_eq_dec result_eq_dec a b then true else false.
@@ -226,40 +228,37 @@ Definition chk_member (s : st) : bool :=
   (if quiescent s then members_eqb (destroyed (g s)) (expected_destroyed s) else true).
 
 Definition expected_roots (s : st) : list result :=
-  match p_prog (cfg s) with
-  | PDrop => []
-  | _ => [if ab_won (g s) then RDone else expected (cfg s)]
-  end.
+  if awaited (cfg s) then [if ab_won (g s) then RDone else expected (cfg s)] else [].
 
 Definition chk_result (s : st) : bool :=
   (length (roots (g s)) <=? 1) &&
   (if quiescent s then results_eqb (roots (g s)) (expected_roots s) else true) &&
   (results_eqb (roots (g s)) [] || results_eqb (roots (g s)) (expected_roots s)) &&
-  implb (ab_won (g s)) (ext_stop (m s) && prog_eqb (p_prog (cfg s)) PStop) &&
+  implb (ab_won (g s)) (ext_stop (m s) && negb (away13 (cfg s) && away14 (cfg s))) &&
   negb (ab_won (g s) && op_won (g s)) &&
-  (if quiescent s && negb (prog_eqb (p_prog (cfg s)) PDrop) then ab_won (g s) || op_won (g s) else true).
+  (if quiescent s && awaited (cfg s) then ab_won (g s) || op_won (g s) else true).
 
 Definition chk_stops (s : st) : bool :=
   (if quiescent s then
      implb (negb (op_won (g s))) (src_stop (g s)) && implb (drop_init (g s)) (src_stop (g s)) &&
      implb (ab_won (g s)) (src_stop (g s))
    else true) &&
-  implb (src_stop (g s)) (prog_eqb (p_prog (cfg s)) PDrop || ext_stop (m s)).
+  implb (src_stop (g s)) (negb (awaited (cfg s)) || ext_stop (m s)).
 
 Definition chk_safe (s : st) : bool := negb (uaf (g s)) && negb (bad (g s)).
 
 Definition chk_progress (s : st) : bool :=
   quiescent s || existsb (fun t => match step t s with Some _ => true | None => false end) [0; 1; 2].
 
-Lemma chk_deleted_ok : all_params (fun p => implb true (forallb chk_deleted (reach p))) = true.
+Lemma chk_deleted_ok : all_params (fun p => implb (p_fixed p || away14 p) (forallb chk_deleted (reach p))) = true.
 Proof. vm_cast_no_check (eq_refl true). Qed.
-Lemma chk_member_ok : all_params (fun p => implb (p_fixed p || away7 p) (forallb chk_member (reach p))) = true.
+Lemma chk_member_ok : all_params (fun p => implb (p_fixed p || (away7 p && away14 p)) (forallb chk_member (reach p))) = true.
 Proof. vm_cast_no_check (eq_refl true). Qed.
 Lemma chk_result_ok : all_params (fun p => implb true (forallb chk_result (reach p))) = true.
 Proof. vm_cast_no_check (eq_refl true). Qed.
 Lemma chk_stops_ok : all_params (fun p => implb true (forallb chk_stops (reach p))) = true.
 Proof. vm_cast_no_check (eq_refl true). Qed.
-Lemma chk_safe_ok : all_params (fun p => implb (p_fixed p || away13 p) (forallb chk_safe (reach p))) = true.
+Lemma chk_safe_ok : all_params (fun p => implb (p_fixed p || (away13 p && away14 p)) (forallb chk_safe (reach p))) = true.
 Proof. vm_cast_no_check (eq_refl true). Qed.
 Lemma chk_progress_ok : all_params (fun p => implb true (forallb chk_progress (reach p))) = true.
 Proof. vm_cast_no_check (eq_refl true). Qed.
@@ -291,12 +290,13 @@ Section Main.
   Variable sched : list nat.
   Let s := final p sched.
 
-  (* 1. the shared state is deleted at most once, and exactly once when everybody is done:
-        holds for the code as written and for the fixed code *)
+  (* 1. the shared state is deleted at most once, and exactly once when everybody is done *)
   Theorem deleted_once :
+    p_fixed p || away14 p = true ->
     deleted (g s) <= 1 /\ (quiescent s = true -> deleted (g s) = 1).
   Proof.
-    pose proof (all_runs (fun _ => true) chk_deleted chk_deleted_ok p sched [] eq_refl) as H.
+    intros Hc.
+    pose proof (all_runs (fun p => p_fixed p || away14 p) chk_deleted chk_deleted_ok p sched [] Hc) as H.
     fold (final p sched) in H. fold s in H. unfold chk_deleted in H.
     apply andb_true_iff in H as [H1 H2]. apply Nat.leb_le in H1. split; [exact H1|].
     intros Hq. rewrite Hq in H2. apply Nat.eqb_eq in H2. exact H2.
@@ -305,13 +305,13 @@ Section Main.
   (* 2. a destructor runs on a result member at most once, only on the member that was
         constructed, and at quiescence exactly the constructed member has been destroyed *)
   Theorem result_destroyed_once_and_matching :
-    p_fixed p || away7 p = true ->
+    p_fixed p || (away7 p && away14 p) = true ->
     (destroyed (g s) = [] \/ exists c, constructed (g s) = Some c /\ destroyed (g s) = [c]) /\
     (quiescent s = true ->
        destroyed (g s) = match constructed (g s) with Some c => [c] | None => [] end).
   Proof.
     intros Hc.
-    pose proof (all_runs (fun p => p_fixed p || away7 p) chk_member chk_member_ok p sched [] Hc) as H.
+    pose proof (all_runs (fun p => p_fixed p || (away7 p && away14 p)) chk_member chk_member_ok p sched [] Hc) as H.
     fold (final p sched) in H. fold s in H. unfold chk_member in H.
     apply andb_true_iff in H as [H1 H2]. split.
     - apply orb_true_iff in H1 as [H1|H1]; apply members_eqb_eq in H1; [left; exact H1|].
@@ -319,22 +319,20 @@ Section Main.
     - intros Hq. rewrite Hq in H2. apply members_eqb_eq in H2. exact H2.
   Qed.
 
-  (* 3. the awaiting receiver is completed at most once; at quiescence exactly once (never for a
-        dropped future) with: done if the future was cancelled before the result was available
-        (abandon won the race from init), otherwise the operation's own result -- a result that is
-        already there wins over a stop request.  Exactly one of abandon / complete wins. *)
+  (* 3. the awaiting receiver is completed at most once; at quiescence exactly once for an
+        awaited future (never for a dropped one) with: done if the future was cancelled before
+        the result was available (abandon won the race from init), otherwise the operation's own
+        result -- a result that is already there wins over a stop request.  For an awaited
+        future exactly one of abandon / complete wins the race from init. *)
   Theorem future_result :
     length (roots (g s)) <= 1 /\
     (roots (g s) = [] \/
      roots (g s) = [if ab_won (g s) then RDone else expected p]) /\
     (quiescent s = true ->
-       roots (g s) = match p_prog p with
-                     | PDrop => []
-                     | _ => [if ab_won (g s) then RDone else expected p]
-                     end) /\
-    (ab_won (g s) = true -> ext_stop (m s) = true /\ p_prog p = PStop) /\
+       roots (g s) = if awaited p then [if ab_won (g s) then RDone else expected p] else []) /\
+    (ab_won (g s) = true -> ext_stop (m s) = true /\ (p_prog p = PStop \/ p_prog p = PConnDrop)) /\
     (ab_won (g s) = true -> op_won (g s) = true -> False) /\
-    (quiescent s = true -> p_prog p <> PDrop -> ab_won (g s) = true \/ op_won (g s) = true).
+    (quiescent s = true -> awaited p = true -> ab_won (g s) = true \/ op_won (g s) = true).
   Proof.
     pose proof (all_runs (fun _ => true) chk_result chk_result_ok p sched [] eq_refl) as H.
     fold (final p sched) in H. fold s in H. unfold chk_result in H.
@@ -346,29 +344,28 @@ Section Main.
     split; [apply Nat.leb_le; exact HA|].
     split.
     { apply orb_true_iff in HC as [HC|HC]; apply results_eqb_eq in HC; [left; exact HC|].
-      destruct (p_prog p); [left|right|right]; exact HC. }
+      destruct (awaited p); [right|left]; exact HC. }
     split.
     { intros Hq. rewrite Hq in HB. apply results_eqb_eq. exact HB. }
     split.
     { intros Ha. rewrite Ha in HD. cbn in HD. apply andb_true_iff in HD as [HD1 HD2].
-      split; [exact HD1|apply prog_eqb_eq; exact HD2]. }
+      split; [exact HD1|]. unfold away13, away14 in HD2.
+      destruct (p_prog p); cbn in HD2; try discriminate; auto. }
     split.
     { intros Ha Ho. rewrite Ha, Ho in HE. discriminate. }
-    intros Hq Hne. rewrite Hq in HF. cbn [andb] in HF.
-    destruct (prog_eqb (p_prog p) PDrop) eqn:E; [apply prog_eqb_eq in E; contradiction|].
-    cbn in HF. apply orb_true_iff. exact HF.
+    intros Hq Hw. rewrite Hq, Hw in HF. cbn in HF. apply orb_true_iff. exact HF.
   Qed.
 
   (* 4. dropping or cancelling the future requests stop on the spawned operation: whenever the
         operation finds the future gone (its CAS from init fails), whenever drop saw init and
-        whenever abandon won, stopSource_.request_stop has been called by quiescence; and nobody
-        else ever requests it *)
+        whenever abandon won, stopSource_.request_stop has been called by quiescence; and it is
+        only ever called because the future was dropped or a stop request reached it *)
   Theorem drop_or_cancel_stops_op :
     (quiescent s = true ->
        (op_won (g s) = false -> src_stop (g s) = true) /\
        (drop_init (g s) = true -> src_stop (g s) = true) /\
        (ab_won (g s) = true -> src_stop (g s) = true)) /\
-    (src_stop (g s) = true -> p_prog p = PDrop \/ ext_stop (m s) = true).
+    (src_stop (g s) = true -> awaited p = false \/ ext_stop (m s) = true).
   Proof.
     pose proof (all_runs (fun _ => true) chk_stops chk_stops_ok p sched [] eq_refl) as H.
     fold (final p sched) in H. fold s in H. unfold chk_stops in H.
@@ -378,16 +375,16 @@ Section Main.
       apply andb_true_iff in H1 as [H1 H3]. apply andb_true_iff in H1 as [H1 H4].
       repeat split; intros Hx; rewrite Hx in *; cbn in *; assumption.
     - intros Hx. rewrite Hx in H2. cbn in H2. apply orb_true_iff in H2 as [H2|H2];
-        [left; apply prog_eqb_eq; exact H2|right; exact H2].
+        [left; apply negb_true_iff; exact H2|right; exact H2].
   Qed.
 
   (* 5. no step touches the shared state after it was freed, and no branch guarded by an
         assertion / std::terminate is taken *)
   Theorem no_access_after_delete :
-    p_fixed p || away13 p = true -> uaf (g s) = false /\ bad (g s) = false.
+    p_fixed p || (away13 p && away14 p) = true -> uaf (g s) = false /\ bad (g s) = false.
   Proof.
     intros Hc.
-    pose proof (all_runs (fun p => p_fixed p || away13 p) chk_safe chk_safe_ok p sched [] Hc) as H.
+    pose proof (all_runs (fun p => p_fixed p || (away13 p && away14 p)) chk_safe chk_safe_ok p sched [] Hc) as H.
     fold (final p sched) in H. fold s in H. unfold chk_safe in H.
     apply andb_true_iff in H as [H1 H2]. split; apply negb_true_iff; assumption.
   Qed.
@@ -412,7 +409,7 @@ Definition is_dealloc (e : ev) : bool := match e with EDealloc => true | _ => fa
 (* events that access the shared state *)
 Definition shared_ev (e : ev) : bool :=
   match e with
-  | EStL _ | EStS _ | EStC _ _ _ _ | EEvX _ | EEvL _ | EEvC _ _ | ESrcSet | ESrcEnd
+  | EStL _ | EStLa _ | EStS _ | EStC _ _ _ _ | EEvX _ | EEvL _ | EEvC _ _ | ESrcSet | ESrcEnd
   | EValCtor | EValDtor _ => true
   | _ => false
   end.
@@ -546,3 +543,16 @@ Theorem no_access_after_delete_refuted :
              EStL FValue; EValDtor true; EDealloc;
              EExtAcq true 0 3; EExtRel 1; EStC CsAbandon FPoison FAband false].
 Proof. exists sched_finding13. vm_compute. repeat split. Qed.
+
+(* finding 14: connect registers the stop callback; a stop request runs abandon (init ->
+   abandoned, request_stop, evt_.set); the operation state of the never-started future is
+   destroyed: drop reads abandoned and calls std::terminate; the shared state is never freed *)
+Definition p_finding14 : params := {| p_fixed := false; p_out := OVal; p_fault := false; p_prog := PConnDrop |}.
+Definition sched_finding14 : list nat := [1; 1; 2; 2; 2; 2; 2; 2; 2; 2; 2; 1; 1; 1; 1; 0; 0].
+
+Theorem drop_after_abandon_refuted :
+  exists sched,
+    let c := run step sched (init p_finding14, []) in
+    quiescent (fst c) = true /\ bad (g (fst c)) = true /\ deleted (g (fst c)) = 0 /\
+    In ETerminate (snd c) /\ src_stop (g (fst c)) = true.
+Proof. exists sched_finding14. vm_compute. repeat split; auto 30. Qed.
